@@ -55,6 +55,10 @@ struct bn_state {
 	int tainted[BN_MAXOBJ];		/* derived from the private or the blinding value */
 	struct bignum_ctx ctx;
 	int ctx_alive;
+	/* memo of the last BN_num_bits question */
+	int nb_valid;
+	bn_val_t nb_val;
+	int nb_bits;
 	/* failure schedule (see bn_sched_fail) */
 	int fail_at;
 	int opcount;			/* constructor / operation / entropy calls that may fail, so far */
